@@ -1,4 +1,4 @@
-package wmesh
+package meshkit
 
 import (
 	"context"
@@ -71,8 +71,8 @@ type MeshOpts struct {
 
 var topoNames = []string{"chain", "star", "ring", "diamond", "tree", "random", "mutual"}
 
-// drawTopology returns directed edges [dialer, listener] of a connected graph.
-func drawTopology(n int, kind string) [][2]int {
+// DrawTopology returns directed edges [dialer, listener] of a connected graph.
+func DrawTopology(n int, kind string) [][2]int {
 	var e [][2]int
 	add := func(a, b int) {
 		if a == b {
@@ -104,7 +104,7 @@ func drawTopology(n int, kind string) [][2]int {
 	case "diamond":
 		// 0 - {1..n-2} - n-1
 		if n < 4 {
-			return drawTopology(n, "chain")
+			return DrawTopology(n, "chain")
 		}
 		for i := 1; i < n-1; i++ {
 			add(0, i)
@@ -154,7 +154,7 @@ func NewMesh(n int, topo string) *Mesh {
 		m.byID[id] = nd
 		m.Net.SetNodeIP(nd.Name, nd.IP)
 	}
-	m.Edges = drawTopology(n, topo)
+	m.Edges = DrawTopology(n, topo)
 	m.wireEdges()
 	return m
 }
@@ -311,14 +311,14 @@ func (m *Mesh) Dist(src int) []int {
 func (m *Mesh) ConnectedAll() bool {
 	for _, e := range m.Edges {
 		a, b := m.Nodes[e[0]], m.Nodes[e[1]]
-		if !hasPeer(a, b.ID) || !hasPeer(b, a.ID) {
+		if !HasPeer(a, b.ID) || !HasPeer(b, a.ID) {
 			return false
 		}
 	}
 	return true
 }
 
-func hasPeer(n *Node, id identity.AgentID) bool {
+func HasPeer(n *Node, id identity.AgentID) bool {
 	if n.A == nil {
 		return false
 	}
@@ -344,7 +344,7 @@ func (m *Mesh) WaitConnected(limit time.Duration) bool {
 
 func (m *Mesh) NodeByID(id identity.AgentID) *Node { return m.byID[id] }
 
-func (m *Mesh) nameOf(id identity.AgentID) string {
+func (m *Mesh) NameOf(id identity.AgentID) string {
 	if n := m.byID[id]; n != nil {
 		return n.Name
 	}
